@@ -25,7 +25,7 @@ from ..report import Ctx
 from ..selftest import Mutant
 
 PROP = "C02"
-TECHNIQUE = "static analysis: guard-fact analysis of the argument-resolution decision list (per-source exclusion of higher-priority sources) + CFG dominance/must-pass on Pipeline._run/run + merge-order and mutator->invalidation path rules + publish-after-complete rule for the internal memo + positional-only entry parameters + per-iteration bookkeeping of used parameters"
+TECHNIQUE = "static analysis: guard-fact analysis of the argument-resolution decision list (per-source exclusion of higher-priority sources) + CFG dominance/must-pass on Pipeline._run/run + merge-order and mutator->invalidation path rules + publish-after-complete rule for the internal memo + positional-only entry parameters + per-iteration bookkeeping of used parameters + consumed-edge naming of producers in arg_combinations + validate-the-whole-listing rule for the constructor"
 BASE = "pipefunc._pipeline._base"
 EXPLANATION = (
     "Static analysis: the argument-precedence chains of the three sibling implementations are extracted (membership "
